@@ -29,7 +29,7 @@ well-formed relative to the recorded `C` columns, and every declared virtual exp
 theorem C10_parsed_wf (s : Str) (p : Parsed) (h : parseTest s = .ok p) :
     p.signals.Nodup ∧
     Stmts.SWF p.signals.length (recB p.signals (p.expIn.map (fun e => (e.1, 0)))) p.stmts ∧
-    (∀ v ∈ p.virt, v.2.2.WF) := by
+    (∀ v ∈ p.virt, v.2.2.WF) ∧ (p.virt.map (·.1)).Nodup := by
   unfold parseTest at h
   cases hh : parseHeaderAll s with
   | err spans => simp [hh] at h
@@ -44,7 +44,7 @@ theorem C10_parsed_wf (s : Str) (p : Parsed) (h : parseTest s = .ok p) :
       have hb := (bwf (names.map (·.1)) _).block (fun _ => True) (fun _ _ _ _ => trivial) none []
         _ ⟨trivial, trivial⟩ b st hp
       obtain ⟨hle, _, hsb⟩ := hb
-      refine ⟨hnd, ?_, ?_⟩
+      refine ⟨hnd, ?_, ?_, ?_⟩
       · simp only
         refine Stmts.SWF_mono _ _ _ ?_ b hsb
         intro j hj
@@ -58,12 +58,22 @@ theorem C10_parsed_wf (s : Str) (p : Parsed) (h : parseTest s = .ok p) :
       · intro v hv
         simp only [List.mem_map] at hv
         obtain ⟨x, hx, rfl⟩ := hv
-        rcases hle.2 x hx with h0 | h0
+        rcases hle.2.1 x hx with h0 | h0
         · simp at h0
         · exact h0
+      · have := hle.2.2 (by simp)
+        simpa [List.map_map, Function.comp_def] using this
     · cases h
     · cases h
     · cases h
+
+/-- **C12, from the same pass**: in an accepted program every function call names a function of the
+table with its number of arguments, in every expression wherever it stands (rows, bounds,
+conditions, `let`s, declarations), and no name is declared twice. -/
+theorem C12_calls_and_declarations (s : Str) (p : Parsed) (h : parseTest s = .ok p) :
+    Stmts.SWF p.signals.length (fun _ => true) p.stmts ∧ (∀ v ∈ p.virt, v.2.2.WF) ∧ (p.virt.map (·.1)).Nodup := by
+  obtain ⟨_, hs, hv, hn⟩ := C10_parsed_wf s p h
+  exact ⟨Stmts.SWF_mono _ _ _ (fun _ _ => rfl) p.stmts hs, hv, hn⟩
 
 theorem buildReads_lt (signals : List Signal) : ∀ (names : List String) (is : List Nat),
     buildReads signals names = .ok is → ∀ r ∈ is, r < signals.length
@@ -99,7 +109,7 @@ if the caller supplied any, are well-formed) is a well-formed test. -/
 theorem C10_accepted_wf (s : Str) (p : Parsed) (sigs : List Signal) (tc : TestCase)
     (hp : parseTest s = .ok p) (hb : withSignals p sigs = .ok tc)
     (hsv : ∀ sg ∈ sigs, ∀ e, sg.typ = .virt e → e.WF) : tc.WF p.signals.length := by
-  obtain ⟨hnd, hswf, hvirt⟩ := C10_parsed_wf s p hp
+  obtain ⟨hnd, hswf, hvirt, _⟩ := C10_parsed_wf s p hp
   unfold withSignals at hb
   cases hd : checkDuplicates (p.virt.map (·.1)) sigs [] with
   | some e => simp [hd] at hb
